@@ -168,6 +168,7 @@ fn c04_step(count_based: bool, n: usize) {
     let pre_half = c.half_open_successes;
     let (pre_total, pre_fail, pre_slow) = window_stats(&c, &cfg);
     let pre_front_evicted = count_based && pre_total == cfg.sliding_window_size;
+    let front = c.count_window.front().copied();
     let op: u8 = kani::any();
     kani::assume(op < 6);
     let d = any_millis(20_000);
@@ -213,6 +214,14 @@ fn c04_step(count_based: bool, n: usize) {
                             assert!(t == (pre_total + 1).min(cfg.sliding_window_size), "[C04.window_slides] the window holds the last N calls");
                             let df = if failure { 1 } else { 0 };
                             assert!(f + 1 >= pre_fail + df && f <= pre_fail + df, "[C04.window_failure_count] failures in window = previous - evicted + new");
+                            // exact aggregates: previous - evicted oldest call + this call
+                            let (ev_f, ev_s) = match (pre_front_evicted, front) {
+                                (true, Some((ff, ss))) => (ff as usize, ss as usize),
+                                _ => (0, 0),
+                            };
+                            assert!(f == pre_fail + df - ev_f, "[C04.window_failure_count] failures in window = previous - evicted + new");
+                            assert!(s == pre_slow + (slow as usize) - ev_s, "[C04.window_slow_count] slow calls in window = previous - evicted + new");
+                            assert!(c.success_count == t - f, "[C04.window_success_count] successes in window = total - failures");
                         }
                     } else {
                         assert!(post == CircuitState::Open, "[C04.closed_only_to_open] recording an outcome while closed can only open the breaker");
@@ -254,7 +263,6 @@ fn c04_step(count_based: bool, n: usize) {
                 "[C04.reset_clears] reset leaves an empty window");
         }
     }
-    let _ = (pre_slow, pre_front_evicted, slow);
     std::mem::forget(c);
     std::mem::forget(cfg);
 }
@@ -497,13 +505,30 @@ fn scripted_record_failure<C>(_c: &mut Circuit, _cfg: &CircuitBreakerConfig<C>, 
     wire().failures += 1;
 }
 
-use crate::classifier::DefaultClassifier;
+use crate::classifier::{DefaultClassifier, FailureClassifier};
+/// Custom classifier (C04 "custom failure classifier"): errors with an even code are NOT
+/// failures, the success value 0xBAD IS one.
+struct OddClassifier;
+fn odd_is_failure(r: &Result<u32, u32>) -> bool {
+    match r {
+        Ok(v) => *v == 0xBAD,
+        Err(e) => *e & 1 == 1,
+    }
+}
+impl FailureClassifier<u32, InnerErr> for OddClassifier {
+    fn classify(&self, r: &Result<u32, InnerErr>) -> bool {
+        match r {
+            Ok(v) => odd_is_failure(&Ok(*v)),
+            Err(e) => odd_is_failure(&Err(e.0)),
+        }
+    }
+}
 use crate::verif_kani::svc::{self as svcm, mon, Inner, InnerErr};
 use crate::{CircuitBreaker, CircuitBreakerError};
 use std::task::Poll;
 use tower::Service;
 
-fn wiring_cfg() -> CircuitBreakerConfig<DefaultClassifier> {
+fn wiring_cfg<C>(c: C) -> CircuitBreakerConfig<C> {
     CircuitBreakerConfig {
         failure_rate_threshold: 0.5,
         sliding_window_type: SlidingWindowType::CountBased,
@@ -512,7 +537,7 @@ fn wiring_cfg() -> CircuitBreakerConfig<DefaultClassifier> {
         wait_duration_in_open: Duration::from_secs(1),
         permitted_calls_in_half_open: 1,
         minimum_number_of_calls: 2,
-        failure_classifier: DefaultClassifier,
+        failure_classifier: c,
         slow_call_duration_threshold: None,
         slow_call_rate_threshold: 1.0,
         event_listeners: tower_resilience_core::EventListeners::new(),
@@ -526,7 +551,7 @@ fn cb_wiring(with_fallback: bool) {
     let mut script = svcm::any_script();
     script.never = false;
     script.immediate = true;
-    let cb = CircuitBreaker::new(Inner::new(script), Arc::new(wiring_cfg()));
+    let cb = CircuitBreaker::new(Inner::new(script), Arc::new(wiring_cfg(DefaultClassifier)));
     let req: u32 = kani::any();
     let mut out = None;
     if with_fallback {
@@ -613,3 +638,30 @@ fn c03_call_wiring() { cb_wiring(false) }
 #[kani::stub(Circuit::record_success, scripted_record_success)]
 #[kani::stub(Circuit::record_failure, scripted_record_failure)]
 fn c03_call_wiring_with_fallback() { cb_wiring(true) }
+
+/// Same wiring with a custom failure classifier: the admitted call's outcome is recorded
+/// exactly once, as a failure iff the classifier says so (also for `Err` results it does
+/// not count and `Ok` results it does).
+#[kani::proof]
+#[kani::unwind(6)]
+#[kani::stub(std::time::Instant::now, tokio::model::std_instant_now)]
+#[kani::stub(catch_unwind, env::catch_unwind_stub)]
+#[kani::stub(Circuit::try_acquire, scripted_try_acquire)]
+#[kani::stub(Circuit::record_success, scripted_record_success)]
+#[kani::stub(Circuit::record_failure, scripted_record_failure)]
+fn c04_custom_classifier_recording() {
+    wire().permit = true;
+    let mut script = svcm::any_script();
+    script.never = false;
+    script.immediate = true;
+    let mut cb = CircuitBreaker::new(Inner::new(script), Arc::new(wiring_cfg(OddClassifier)));
+    let _ = svcm::poll_ready_once(&mut cb);
+    let mut fut = cb.call(kani::any());
+    let p = svcm::poll_once(fut.as_mut());
+    assert!(p.is_ready() && mon().calls == 1, "[C20.circuitbreaker_forwards_once] an admitted call is forwarded exactly once, unchanged");
+    let w = wire();
+    assert!(w.successes + w.failures == 1, "[C04.outcome_recorded_once] every admitted call records exactly one outcome");
+    assert!((w.failures == 1) == odd_is_failure(&script.outcomes[0]), "[C04.custom_classifier_decides] the configured failure classifier decides whether the outcome is a failure");
+    std::mem::forget(fut);
+    std::mem::forget(cb);
+}
